@@ -133,6 +133,15 @@ type fuCtx struct {
 	closureSites []fuSite
 }
 
+// last component of a Go path: "r.conn.sendCh" -> "sendCh" (pinned tables must not depend on
+// the names of receivers and local variables)
+func fuLast(s string) string {
+	if i := strings.LastIndex(s, "."); i >= 0 {
+		return s[i+1:]
+	}
+	return s
+}
+
 func fuShort(s string, n int) string {
 	s = strings.Join(strings.Fields(s), " ")
 	if len(s) > n {
@@ -172,6 +181,10 @@ func (c *fuCtx) isView(t types.Type) bool {
 	}
 	if p, ok := t.(*types.Pointer); ok {
 		t = p.Elem()
+		// a pointer INTO a frame (&f.Header); a FrameHeader value is a copy
+		if n, ok := t.(*types.Named); ok && n.Obj().Pkg() == c.t.pkg.Types && n.Obj().Name() == "FrameHeader" {
+			return true
+		}
 	}
 	if s, ok := t.(*types.Slice); ok {
 		if b, ok := s.Elem().(*types.Basic); ok && b.Kind() == types.Byte {
@@ -530,7 +543,12 @@ func (a *fuAn) buildClasses() {
 			return false
 		}
 		if !c.isCarrier(v.Type()) && !c.isView(v.Type()) {
-			return false
+			// a closure over the frame, or a value built from an explicit reference into it
+			// (&f.Header, f.Payload[a:b] inside a literal) is a view as well
+			_, isFunc := v.Type().Underlying().(*types.Signature)
+			if !isFunc && !a.takesRef(rhs) {
+				return false
+			}
 		}
 		changed := false
 		for k := range a.parent {
@@ -589,6 +607,33 @@ func (a *fuAn) buildClasses() {
 			break
 		}
 	}
+}
+
+// takesRef: e contains &x or x[a:b] with x mentioning any frame class
+func (a *fuAn) takesRef(e ast.Expr) bool {
+	found := false
+	ast.Inspect(e, func(n ast.Node) bool {
+		var inner ast.Expr
+		switch x := n.(type) {
+		case *ast.UnaryExpr:
+			if x.Op == token.AND {
+				inner = x.X
+			}
+		case *ast.SliceExpr:
+			inner = x.X
+		}
+		if inner != nil {
+			if _, isLit := ast.Unparen(inner).(*ast.CompositeLit); !isLit {
+				for k := range a.parent {
+					if a.find(k) == k && a.mentions(inner, k, nil) {
+						found = true
+					}
+				}
+			}
+		}
+		return !found
+	})
+	return found
 }
 
 // class descriptor: kind and a name
@@ -1045,7 +1090,7 @@ func (a *fuAn) simple(s ast.Stmt) *fuNode {
 			return a.unsupported(s, "hand-over call in a go statement")
 		}
 		if a.mentions(x.Call, k, nil) {
-			a.site(s, "go", fuShort(c.t.src(x.Call.Fun), 50))
+			a.site(s, "go", fuLast(fuShort(c.t.src(x.Call.Fun), 50)))
 			return &fuNode{op: "xfer", k: 3, s1: fuShort(c.t.src(x.Call.Fun), 50)}
 		}
 		return fuSkip()
@@ -1054,7 +1099,7 @@ func (a *fuAn) simple(s ast.Stmt) *fuNode {
 			return a.unsupported(s, "hand-over nested in an expression")
 		}
 		if ch, ok := c.info.TypeOf(x.Chan).Underlying().(*types.Chan); ok && c.isFramePtr(ch.Elem()) && a.classValue(x.Value, k) {
-			a.site(s, "send", fuShort(c.t.src(x.Chan), 50))
+			a.site(s, "send", fuLast(fuShort(c.t.src(x.Chan), 50)))
 			return fuSeq(a.useIf(x.Chan, nil), &fuNode{op: "xfer", k: 1, s1: fuShort(c.t.src(x.Chan), 50)})
 		}
 		return a.useIf(s, nil)
@@ -1942,7 +1987,11 @@ func (t *translator) frameUse(w *bytes.Buffer) (nrows, nsites int) {
 				return true
 			}
 			if fuPath(call.Args[0]) == "" {
-				sites = append(sites, fuSite{file: d.file, pos: int(call.Pos()), fn: d.fn, kind: "Release", target: fuShort(t.src(call.Args[0]), 50)})
+				tg := fuShort(t.src(call.Args[0]), 50)
+				if u, ok := ast.Unparen(call.Args[0]).(*ast.UnaryExpr); ok && u.Op == token.ARROW {
+					tg = "<-" + fuLast(fuShort(t.src(u.X), 50))
+				}
+				sites = append(sites, fuSite{file: d.file, pos: int(call.Pos()), fn: d.fn, kind: "Release", target: tg})
 			}
 			return true
 		})
@@ -1962,6 +2011,88 @@ func (t *translator) frameUse(w *bytes.Buffer) (nrows, nsites int) {
 			sep = ""
 		}
 		fmt.Fprintf(w, "  (* %s %s: %s %s *) (%s, %s, %s)%s\n", s.file, s.fn, s.kind, fuComment(s.target), strlit(s.fn), strlit(s.kind), strlit(s.target), sep)
+	}
+	fmt.Fprintf(w, "].\n\n")
+
+	// frames stored into the heap: X.field = f, T{field: f}, append(s, f) with f of carrier type.
+	// Not hand-overs by themselves, but the frame can then be reached from other functions: the
+	// list is pinned in Model/FrameUse.v, a new store has to be reviewed.
+	type esc struct {
+		file     string
+		pos      int
+		fn, what string
+	}
+	var escs []esc
+	for _, d := range decls {
+		d := d
+		isStorable := func(e ast.Expr) bool {
+			e = ast.Unparen(e)
+			if u, ok := e.(*ast.UnaryExpr); ok && u.Op == token.AND {
+				e = ast.Unparen(u.X)
+			}
+			if fuIsNil(c.info, e) {
+				return false
+			}
+			if _, isCall := e.(*ast.CallExpr); isCall {
+				return false // a fresh value from a constructor: whoever built it stored the frame
+			}
+			if _, isLit := e.(*ast.CompositeLit); isLit {
+				return false
+			}
+			return c.isCarrier(c.info.TypeOf(e))
+		}
+		ast.Inspect(d.fd.Body, func(n ast.Node) bool {
+			switch x := n.(type) {
+			case *ast.AssignStmt:
+				if len(x.Lhs) != len(x.Rhs) {
+					return true
+				}
+				for i, l := range x.Lhs {
+					l = ast.Unparen(l)
+					_, isSel := l.(*ast.SelectorExpr)
+					_, isIdx := l.(*ast.IndexExpr)
+					if (isSel || isIdx) && c.isCarrier(c.info.TypeOf(l)) && isStorable(x.Rhs[i]) {
+						fld := fuLast(fuShort(t.src(l), 60))
+						if ix, ok := l.(*ast.IndexExpr); ok {
+							fld = fuLast(fuShort(t.src(ix.X), 60)) + "[]"
+						}
+						escs = append(escs, esc{d.file, int(x.Pos()), d.fn, fld})
+					}
+				}
+			case *ast.KeyValueExpr:
+				if id, ok := x.Key.(*ast.Ident); ok && isStorable(x.Value) {
+					if _, isField := c.info.Uses[id].(*types.Var); isField || c.info.Uses[id] == nil {
+						escs = append(escs, esc{d.file, int(x.Pos()), d.fn, id.Name})
+					}
+				}
+			case *ast.CallExpr:
+				if id, ok := ast.Unparen(x.Fun).(*ast.Ident); ok && id.Name == "append" {
+					if _, isb := c.info.Uses[id].(*types.Builtin); isb {
+						for _, a := range x.Args[1:] {
+							if isStorable(a) {
+								escs = append(escs, esc{d.file, int(x.Pos()), d.fn, "append " + fuLast(fuShort(t.src(x.Args[0]), 60))})
+							}
+						}
+					}
+				}
+			}
+			return true
+		})
+	}
+	sort.SliceStable(escs, func(i, j int) bool {
+		if escs[i].file != escs[j].file {
+			return escs[i].file < escs[j].file
+		}
+		return escs[i].pos < escs[j].pos
+	})
+	fmt.Fprintf(w, "(* stores of a frame (or a frame-bearing struct) into the heap: (function, field) *)\n")
+	fmt.Fprintf(w, "Definition frame_escapes : list (str * str) := [\n")
+	for i, e := range escs {
+		sep := ";"
+		if i == len(escs)-1 {
+			sep = ""
+		}
+		fmt.Fprintf(w, "  (* %s %s: %s *) (%s, %s)%s\n", e.file, e.fn, fuComment(e.what), strlit(e.fn), strlit(e.what), sep)
 	}
 	fmt.Fprintf(w, "].\n\n")
 
